@@ -171,6 +171,23 @@ var routes = []route{
 		o, m := c.pick("$a", "$o[1][0]")
 		return "", fmt.Sprintf("$a = %s;\n  $o = [0, 0];\n  $o[1] = [$a];\n  %s", c.lit, c.around(o, m))
 	}},
+	// ---- variadic parameters: the array lands in ...$rest, the callee writes $rest[i]... ----
+	variadic("var-fn", "function c{ID}_f({O}...$rest) {\n{BODY}\n}\n", "c{ID}_f({A}$a)", "$rest[0]", false),
+	variadic("var-fn-after", "function c{ID}_f({O}$x, ...$rest) {\n{BODY}\n}\n", "c{ID}_f({A}1, $a)", "$rest[0]", false),
+	variadic("var-fn-second", "function c{ID}_f({O}...$rest) {\n{BODY}\n}\n", "c{ID}_f({A}[1], $a)", "$rest[1]", false),
+	variadic("var-fn-typed", "function c{ID}_f({O}array ...$rest) {\n{BODY}\n}\n", "c{ID}_f({A}$a)", "$rest[0]", false),
+	variadic("var-fn-lit", "function c{ID}_f({O}...$rest) {\n{BODY}\n}\n", "c{ID}_f({A}[$a])", "$rest[0][0]", false),
+	variadic("var-method", "class C{ID}_K {\n  function m({O}...$rest) {\n{BODY}\n  }\n}\n", "(new C{ID}_K())->m({A}$a)", "$rest[0]", false),
+	variadic("var-method-after", "class C{ID}_K {\n  function m({O}$x, ...$rest) {\n{BODY}\n  }\n}\n", "(new C{ID}_K())->m({A}1, $a)", "$rest[0]", false),
+	variadic("var-method-second", "class C{ID}_K {\n  function m({O}...$rest) {\n{BODY}\n  }\n}\n", "(new C{ID}_K())->m({A}[1], $a)", "$rest[1]", false),
+	variadic("var-method-typed", "class C{ID}_K {\n  function m({O}array ...$rest) {\n{BODY}\n  }\n}\n", "(new C{ID}_K())->m({A}$a)", "$rest[0]", false),
+	variadic("var-method-this", "class C{ID}_K {\n  function m({O}...$rest) {\n{BODY}\n  }\n  function outer(&$q) { return $this->m({A2}$q); }\n}\n", "(new C{ID}_K())->outer($a)", "$rest[0]", false),
+	variadic("var-static", "class C{ID}_K {\n  static function s({O}...$rest) {\n{BODY}\n  }\n}\n", "C{ID}_K::s({A}$a)", "$rest[0]", false),
+	variadic("var-new", "class C{ID}_K {\n  function __construct({O}...$rest) {\n{BODY}\n  }\n}\n", "new C{ID}_K({A}$a)", "$rest[0]", false),
+	variadic("var-closure", "$fn = function ({O}...$rest) {\n{BODY}\n  };", "$fn({A}$a)", "$rest[0]", true),
+	variadic("var-arrow-call", "$fn = function ({O}...$rest) {\n{BODY}\n  };", "call_user_func($fn, {A}$a)", "$rest[0]", true),
+	variadic("var-spread", "function c{ID}_f({O}...$rest) {\n{BODY}\n}\n", "c{ID}_f({A}...$args)", "$rest[0]", false),
+	variadic("var-spread-method", "class C{ID}_K {\n  function m({O}...$rest) {\n{BODY}\n  }\n}\n", "(new C{ID}_K())->m({A}...$args)", "$rest[0]", false),
 	// ---- promoted constructor parameters (__construct(public array $arr)) ----
 	promoPublic("promo-public", "public array $arr"),
 	promoPublic("promo-untyped", "public $arr"),
@@ -253,6 +270,41 @@ func litClass(name, sig, call, callOrig string) route {
 		sig2 := strings.Replace(sig, "$p)", "$p, &$o)", 1)
 		defs := fmt.Sprintf("class C%d_K {\n  %s {\n  %s\n  }\n}\n", c.id, sig2, c.around("$p[0]", "$o"))
 		return defs, fmt.Sprintf("$a = %s;\n  $r = "+callOrig+";", c.lit, c.id)
+	}}
+}
+
+// variadic: the array under test is an argument that lands in a ...$rest parameter; the
+// callee writes through `held` ($rest[i]...). {ID} case id, {BODY} callee statements,
+// {O}/{A} an extra leading by-reference parameter / argument on the orig side (the
+// original is then written through it while $rest holds the by-value copy). inline: the
+// callee is a closure defined inside the case function.
+func variadic(name, def, call, held string, inline bool) route {
+	return route{name, kindValue, both(), func(c *caseCtx) (string, string) {
+		id := fmt.Sprint(c.id)
+		fill := func(t, body string) string {
+			o, a, o2, a2 := "", "", "", ""
+			if c.side == "orig" {
+				o, a, o2, a2 = "&$o, ", "$a, ", "", "$q, "
+			}
+			r := strings.NewReplacer("{ID}", id, "{BODY}", body, "{O2}", o2, "{A2}", a2, "{O}", o, "{A}", a)
+			return r.Replace(t)
+		}
+		pre := "$a = " + c.lit + ";\n  $args = [$a];\n  "
+		if c.side == "copy" {
+			body := "  " + c.emit("MB", held) + "\n  " + c.mut(held) + "\n  " + c.emit("MA", held)
+			d := fill(def, body)
+			use := c.emit("OB", "$a") + "\n  $r = " + fill(call, "") + ";\n  " + c.emit("OA", "$a")
+			if inline {
+				return "", pre + d + "\n  " + use
+			}
+			return d, pre + use
+		}
+		d := fill(def, "  "+c.around(held, "$o"))
+		use := "$r = " + fill(call, "") + ";"
+		if inline {
+			return "", pre + d + "\n  " + use
+		}
+		return d, pre + use
 	}}
 }
 
